@@ -61,7 +61,12 @@ def sweep(ctx, sub, V, rep, durs, days, expect, tagf, nontrivial=None, extra_arg
             continue
         for n, i, o, x in zip(ns, ins, out, exps):
             if o != x:
-                V.add(tagf(info), {"rep": rep, "dur": dargs, "in": i, "n": n}, expected=x, actual=o,
+                case = {"rep": rep, "dur": dargs, "in": i, "n": n}
+                if extra_args:
+                    case["extra"] = list(extra_args)
+                    if extra_args[0] == "-f" and extra_args[1] in REPS:
+                        case["outrep"] = extra_args[1]
+                V.add(tagf(info), case, expected=x, actual=o,
                       weight=sum(abs(k) for k, _ in info) * 1000000 + n)
         sub.evaluations += len(ins)
         if nontrivial:
@@ -78,6 +83,6 @@ def replay_one(ctx, case, expect_text):
         except BatchError as e:
             return {"detail": str(e), "result": e.result.brief()}
         return None
-    out, _ = run_lines(ctx.build, "dadd", args0 + ["--"] + case["dur"], [case["in"]])
+    out, _ = run_lines(ctx.build, "dadd", list(case.get("extra", [])) + args0 + ["--"] + case["dur"], [case["in"]])
     return None if out[0] == expect_text else {"in": case["in"], "dur": case["dur"],
                                               "expected": expect_text, "actual": out[0]}
